@@ -20,17 +20,18 @@ Lemma chunk_reached c seq0 chunks sched :
   wf_cfg c seq0 -> chunks_ok c chunks -> ts_fit c (length chunks + silence_packets c) ->
   exists j, reached c seq0 chunks sched j.
 Proof.
-  destruct c as [fs latency start ssrc lim close].
-  unfold wf_cfg, chunks_ok, ts_fit, silence_packets. cbn [c_fs c_latency c_start c_ssrc c_lim c_close].
-  intros (Hfs & Hlat & Hl1 & Hl2 & Hs0 & Hss & ->) Hch Hts.
+  destruct c as [send fs latency start ssrc lim close].
+  unfold wf_cfg, chunks_ok, ts_fit, silence_packets. cbn [c_send c_fs c_latency c_start c_ssrc c_lim c_close].
+  intros (Hsend & Hfs & Hlat & Hl1 & Hl2 & Hs0 & Hss & ->) Hch Hts.
   change (packet_size _) with (psz fs) in Hch.
   change (length chunks + N.to_nat ((latency + 351) / 352)) with (total latency chunks) in *.
-  pose proof (stream_at fs latency start ssrc lim seq0 chunks Hfs Hlat Hl1 Hl2 Hs0 Hss Hch Hts sched) as E.
-  change (cf fs latency start ssrc lim) with
-    {| c_fs := fs; c_latency := latency; c_start := start; c_ssrc := ssrc; c_lim := lim; c_close := None |} in E.
+  pose proof (stream_at send fs latency start ssrc lim seq0 chunks Hsend Hfs Hlat Hl1 Hl2 Hs0 Hss Hch Hts sched) as E.
+  change (cf send fs latency start ssrc lim) with
+    {| c_send := send; c_fs := fs; c_latency := latency; c_start := start; c_ssrc := ssrc; c_lim := lim;
+       c_close := None |} in E.
   exists (fst (laps_spec latency chunks sched 0)).
   pose proof (laps_spec_le latency chunks sched 0 ltac:(lia)) as Hle.
-  constructor; unfold chunk_stream, silence_packets; cbn [c_fs c_latency c_start c_ssrc c_lim c_close];
+  constructor; unfold chunk_stream, silence_packets; cbn [c_send c_fs c_latency c_start c_ssrc c_lim c_close];
     change (length chunks + N.to_nat ((latency + 351) / 352)) with (total latency chunks).
   - lia.
   - rewrite E. reflexivity.
@@ -79,7 +80,7 @@ Section Reached.
     length d = 12 + packet_size c.
   Proof.
     intros H d. subst d. rewrite (reached_nth i H).
-    destruct Hwf as (_ & _ & _ & _ & _ & Hss & _).
+    destruct Hwf as (_ & _ & _ & _ & _ & _ & Hss & _).
     assert (Hi : i < total (c_latency c) chunks) by (pose proof (r_le _ _ _ _ _ R); unfold total, nd, npad, silence_packets in *; lia).
     split; [reflexivity|]. split; [apply pkt_marker|]. split; [apply pkt_seq|].
     split; [apply (pkt_ts (c_fs c) (c_latency c) (c_ssrc c) seq0 chunks hts' i Hi)|].
@@ -101,7 +102,7 @@ Section Reached.
   Proof. rewrite reached_len. rewrite (r_state _ _ _ _ _ R). split; reflexivity. Qed.
 
   Lemma wf_lim : 1 <= c_lim c /\ (N.of_nat (c_lim c) < SEQMOD)%N.
-  Proof. destruct Hwf as (_ & _ & H1 & H2 & _). split; assumption. Qed.
+  Proof. destruct Hwf as (_ & _ & _ & H1 & H2 & _). split; assumption. Qed.
 
   Lemma reached_retransmit_complete first count i t :
     recent (c_lim c) (length out) i -> t < N.to_nat count ->
@@ -169,7 +170,7 @@ Lemma file_payload_conserved c seq0 src sched :
     ++ zeros (packet_size c * silence_packets c).
 Proof.
   intros Hwf He Hts Hns Hlen.
-  assert (Hfs : 0 < c_fs c) by apply Hwf.
+  assert (Hfs : 0 < c_fs c) by apply (proj2 Hwf).
   destruct (file_is_chunk c seq0 src sched Hfs He) as (E & Hch & Hn).
   unfold all_packets in *. rewrite <- Hn in *.
   destruct (chunk_reached c seq0 _ sched Hwf Hch Hts) as [j R].
@@ -212,7 +213,7 @@ Section FileAny.
               length (fchunks (c_fs c) src) + silence_packets c = all_packets c src /\
               reached c seq0 (fchunks (c_fs c) src) sched j.
   Proof.
-    assert (Hfs : 0 < c_fs c) by apply Hwf.
+    assert (Hfs : 0 < c_fs c) by apply (proj2 Hwf).
     destruct (file_is_chunk c seq0 src sched Hfs He) as (E & Hch & Hn).
     assert (Hts' : ts_fit c (length (fchunks (c_fs c) src) + silence_packets c))
       by (rewrite Hn; exact Hts).
@@ -286,7 +287,7 @@ Section FileAny.
     out = firstn (length out) (s_out (fst (file_stream c seq0 src (plain_sched (S (all_packets c src)))))).
   Proof.
     destruct file_reached as (j & E & Hch & Hts' & Hn & R). rewrite E.
-    assert (Hfs : 0 < c_fs c) by apply Hwf.
+    assert (Hfs : 0 < c_fs c) by apply (proj2 Hwf).
     destruct (file_is_chunk c seq0 src (plain_sched (S (all_packets c src))) Hfs He) as (E2 & _ & _).
     rewrite E2.
     destruct (chunk_reached c seq0 _ (plain_sched (S (all_packets c src))) Hwf Hch Hts') as [j2 R2].
